@@ -471,7 +471,7 @@ def analyse_writers(R, kinds, tier):
 
 SCAN_TARGETS = (T + 'unsigned_rule', T + 'unsigned_rule_with_action', T + 'maximum_rule', T + 'maximum_rule_with_action',     # the signed rules reach the same internal scanners through a nested parse
                
-                T + 'http::chunk_size', T + 'raw_string')
+                T + 'http::chunk_size', T + 'http::chunk_data', T + 'raw_string')
 
 
 def scan_sites(db, u, maxlen):
@@ -484,13 +484,16 @@ def scan_sites(db, u, maxlen):
     try:
         parts = scan.byte_partition(db, fn, (10, 13), merge_gaps=raw)
         probs = []; sites = collections.Counter(); n = 0
+        # a rule that is handed a number (http::chunk_data: the size read by chunk_size) is run for every value of it up to one more than the length of the string
+        sized = [p.get('n') for p in fn.get('params', [])[1:] if (p.get('t') or '').replace('const ', '').strip() in ('unsigned long', 'std::size_t', 'size_t')]
         for w in scan.class_strings(parts, maxlen):
             n += 1
-            mo = []
-            for r in scan.run_on(db, fn, w, oracles=(T + 'internal::accumulate_digit',), eol_check={10, 13}, mon_out=mo):
-                for v in r[4]:
-                    if v[0] == 'S-eol': probs.append((v[2], '%s on input %r' % (v[1], bytes(w))))
-            for k, c in mo[0].sites.items(): sites[k] += c
+            for extra in ([{sized[0]: k} for k in range(len(w) + 2)] if sized else [None]):
+                mo = []
+                for r in scan.run_on(db, fn, w, oracles=(T + 'internal::accumulate_digit',), extra_args=extra, eol_check={10, 13}, mon_out=mo):
+                    for v in r[4]:
+                        if v[0] == 'S-eol': probs.append((v[2], '%s on input %r%s' % (v[1], bytes(w), (' with %s = %d' % list(extra.items())[0]) if extra else '')))
+                for k, c in mo[0].sites.items(): sites[k] += c
     except (scan.Budget, scan.Unmodelled) as e:
         return {'broken': str(e)}
     return {'n': n, 'probs': probs[:20], 'sites': dict(sites), 'wall': time.time() - t0, 'classes': len(parts)}
